@@ -404,8 +404,9 @@ impl From<&Model> for EnergyProps {
             .map(|mut dv| {
                 dv.sort_unstable();
                 dv.dedup();
+                // Los horarios diarios no definidos se ignoran
                 dv.iter()
-                    .map(|id| sch_day.get(id).unwrap())
+                    .filter_map(|id| sch_day.get(id))
                     .collect::<Vec<_>>()
             });
         // 5. Acumula las horas ocupadas en cada día para todos los horarios diarios
